@@ -673,6 +673,7 @@ class FuncEmitter:
         self.dists = {}
         self.ulocks = {}
         self.loop_depth_scopes = []  # scope depth at loop entry (for break)
+        self.switch_depth = []       # len(loop_depth_scopes) inside each open switch
         self.terminated = False
         self.T = cx.T if cx.name not in ('',) else Types(None)
         self.free = md.get('free', False)
@@ -904,8 +905,22 @@ class FuncEmitter:
                 self.decl(d)
         elif k == 'IfStmt':
             inner = s['inner']
-            if s.get('hasInit') or s.get('hasVar'):
-                abort('if with init/var', s)
+            if s.get('hasVar'):
+                abort('if with a condition variable', s)
+            if s.get('hasInit'):
+                # if (init; cond): the init statement's names live in a scope around the if
+                self.out('{')
+                self.ind += 1
+                self.scopes.append([])
+                self.stmt(inner[0])
+                s2 = dict(s)
+                s2['hasInit'] = False
+                s2['inner'] = inner[1:]
+                self.stmt(s2)
+                self.end_scope()
+                self.ind -= 1
+                self.out('}')
+                return
             if s.get('isConstexpr'):
                 v = self.em._const_value(inner[0]) if inner[0]['kind'] == 'ConstantExpr' else None
                 if v is None:
@@ -993,6 +1008,44 @@ class FuncEmitter:
             self.end_scope()
             self.ind -= 1
             self.out('}')
+        elif k == 'DoStmt':
+            self.nloops += 1
+            self.out('do')
+            self.loop_depth_scopes.append(len(self.scopes))
+            self.block(s['inner'][0])
+            self.loop_depth_scopes.pop()
+            self.out('while (%s);' % self.expr(s['inner'][1]))
+        elif k == 'SwitchStmt':
+            inner = s['inner']
+            if s.get('hasInit') or s.get('hasVar') or len(inner) != 2 or inner[1]['kind'] != 'CompoundStmt':
+                abort('switch with init/var or without a compound body', s)
+            self.out('switch (%s)' % self.expr(inner[0]))
+            self.out('{')
+            self.ind += 1
+            self.scopes.append([])
+            self.loop_depth_scopes.append(len(self.scopes))  # break leaves the switch
+            self.switch_depth.append(len(self.loop_depth_scopes))
+            def label(x):
+                while x['kind'] in ('CaseStmt', 'DefaultStmt'):
+                    if x['kind'] == 'CaseStmt':
+                        self.out('case %s:' % self.expr(x['inner'][0]))
+                        x = x['inner'][-1]
+                    else:
+                        self.out('default:')
+                        x = x['inner'][-1]
+                    self.terminated = False
+                return x
+            for x in inner[1].get('inner', []):
+                x = label(x)
+                if x['kind'] == 'DeclStmt':
+                    abort('declaration directly inside a switch body', x)
+                self.stmt(x)
+            self.switch_depth.pop()
+            self.loop_depth_scopes.pop()
+            self.end_scope()
+            self.ind -= 1
+            self.out('}')
+            self.terminated = False
         elif k == 'BreakStmt':
             if not self.loop_depth_scopes:
                 abort('break outside loop', s)
@@ -1002,6 +1055,8 @@ class FuncEmitter:
         elif k == 'ContinueStmt':
             if not self.loop_depth_scopes:
                 abort('continue outside loop', s)
+            if self.switch_depth and self.switch_depth[-1] == len(self.loop_depth_scopes):
+                abort('continue directly inside a switch', s)
             for c in self.all_cleanups(self.loop_depth_scopes[-1]):
                 self.out(c)
             self.out('continue;')
@@ -1311,7 +1366,9 @@ class FuncEmitter:
                 return '((%s){0})' % self.ctype(t)
             if len(args) == 1 and self.cls(args[0]).k == 'record':
                 return self.expr(args[0])
-            abort('record construction without a rule', e)
+            # T{a, b}: a user constructor that initialises the fields positionally from its parameters
+            self.check_positional_ctor(t, len(args), e)
+            return '((%s){%s})' % (self.ctype(t), ', '.join(self.expr(a) for a in args))
         if t.k == 'vector' and len(args) == 1:
             # return of the output vector by move
             a = self.strip_wrappers(args[0])
@@ -1397,6 +1454,11 @@ class FuncEmitter:
             if tf.k == 'ms' and tt.k == 'ns':
                 return 'cstl_ms_to_ns(%s)' % self.expr(args[0])
             abort('std::chrono::duration_cast from %s to %s' % (tf.src, tt.src), e)
+        if name == 'make_optional' and len(args) == 1:
+            t = self.cls(args[0])
+            if t.k in ('u64', 'iter'):
+                return '((cstl_opt){true, %s})' % self.expr(args[0])
+            abort('std::make_optional over %s' % t.src, e)
         if name == 'make_pair':
             return '((cstl_pair){%s, %s})' % (self.expr(args[0]), self.expr(args[1]))
         if name in ('begin', 'end', 'size'):
@@ -1528,6 +1590,8 @@ class FuncEmitter:
                     return '%s_erase(%s, &%s, %s_prev(%s, %s_end(%s, &%s)))' % (m.name, P, b, m.name, P, m.name, P, b)
                 if name == 'pop_front' and not A:
                     return '%s_erase(%s, &%s, %s_begin(%s, &%s))' % (m.name, P, b, m.name, P, b)
+                if name == 'push_back' and len(A) == 1 and m.el.k == 'record':
+                    return '%s_emplace_back(%s, &%s, %s)' % (m.name, P, b, A[0])
                 if name == 'emplace_back':
                     if m.el.k == 'record':
                         self.check_positional_ctor(m.el, len(A), e)
@@ -1547,7 +1611,12 @@ class FuncEmitter:
                 if name == 'erase' and len(A) == 1:
                     at = self.cls(args[0])
                     if at.k != 'iter':
-                        abort('erase by key on map', e)
+                        if at.k != 'u64':
+                            abort('erase by key on map: key type', e)
+                        # erase(key): find, erase(it) when present, the number erased (0 or 1)
+                        k_ = self.fresh('ek')
+                        return '({ cstl_iter %s = %s_find(%s, &%s, %s); (%s != %s_end(%s, &%s)) ? (%s_erase(%s, &%s, %s), (uint64_t)1) : (uint64_t)0; })' % (
+                            k_, m.name, P, b, A[0], k_, m.name, P, b, m.name, P, b, k_)
                     return '%s_erase(%s, &%s, %s)' % (m.name, P, b, A[0])
                 if name == 'clear' and not A:
                     return '%s_clear(%s, &%s)' % (m.name, P, b)
